@@ -13,12 +13,15 @@ RULE = ("one case = one run with 1..3 calls of @snark-wrapped functions whose ar
         "mix x container kinds x number of calls")
 
 
+BIG = [False]       # when set, integer leaves may be hundreds of bits wide and no floats are generated (floats cannot follow exactly)
+
+
 def gen_struct(rnd, depth=0):
     k = rnd.random()
     if depth >= 3 or k < 0.45:
-        t = rnd.choice(["int", "int", "float", "bool", "str"])
+        t = rnd.choice(["int", "int", "float", "bool", "str"] if not BIG[0] else ["int", "int", "bool", "str"])
         if t == "int":
-            return rnd.randint(-20, 20)
+            return rnd.randint(-20, 20) if not BIG[0] or rnd.random() < 0.6 else rnd.choice([(1 << 130) + 7, -(1 << 131) + 1, (1 << 200), 3 ** 90])
         if t == "float":
             return rnd.randint(-64, 64) / 16.0
         if t == "bool":
@@ -89,7 +92,9 @@ def gen_recipe(rnd, leaves):
             out.append(("plain", 0, 0, rnd.choice([7, "s", 2.5, True])))
             continue
         i, j = rnd.choice(nums), rnd.choice(nums)
-        op = rnd.choice(["same", "add", "sub", "mulc", "lt", "eq", "addc"])
+        op = rnd.choice(["same", "add", "sub", "mulc", "lt", "eq", "addc", "mul"])
+        if op == "mul" and (isinstance(leaves[i], float) or isinstance(leaves[j], float)):
+            op = "add"      # a product of two fixed-point values is not exact on plain floats
         out.append((op, i, j, rnd.randint(-3, 3)))
     return out
 
@@ -107,6 +112,8 @@ def apply_recipe(recipe, leaves):
             res.append(leaves[i] - leaves[j])
         elif op == "mulc":
             res.append(leaves[i] * c)
+        elif op == "mul":
+            res.append(leaves[i] * leaves[j])
         elif op == "addc":
             res.append(leaves[i] + c)
         elif op == "lt":
@@ -180,6 +187,7 @@ def worker(job):
         p = rnd.choice(moduli)
         N(bitlength=16, resolution=res_bits, modulus=p)
         ncalls = rnd.randint(1, 3)
+        BIG[0] = rnd.random() < 0.15
         expected_pub = []
         specs = []
         ok = True
